@@ -113,7 +113,6 @@ ghost var gLifeSpec int   // the spec handed to the object's method
 ghost var gLifePrev int   // Inherit: the instance handed over as previous generation
 func (e *ObjectEntity) InitWithRecovery(muxMapper context.MuxMapper)
   flag allocates
-  flag frame=unchecked
   requires e != nil
   assume every-entity-is-built-with-an-instance: e.instance != nil
   modifies inits, gLifeSpec, e.generation
@@ -125,7 +124,6 @@ func (e *ObjectEntity) InitWithRecovery(muxMapper context.MuxMapper)
 
 func (e *ObjectEntity) InheritWithRecovery(previousEntity *ObjectEntity, muxMapper context.MuxMapper)
   flag allocates
-  flag frame=unchecked
   requires e != nil && previousEntity != nil
   assume every-entity-is-built-with-an-instance: e.instance != nil
   modifies inherits, inhPrev, gLifeSpec, gLifePrev, e.generation
@@ -144,7 +142,6 @@ iface (o Object) Close()
   flag allocates
 func (e *ObjectEntity) CloseWithRecovery()
   flag allocates
-  flag frame=unchecked
   requires e != nil
   assume every-entity-is-built-with-an-instance: e.instance != nil
   modifies closes
@@ -163,7 +160,7 @@ pred regOK(s *Supervisor) := (forall n string :: lv(s, n) ==> lvTyp(s, n) == typ
 pred eventOK(s *Supervisor, ev *ObjectEntityWatcherEvent) := (forall n string :: (n in ev.Create) ==> ev.Create[n] != nil) && (forall n string :: (n in ev.Update) ==> ev.Update[n] != nil) && (forall n1, n2 string :: (n1 in ev.Create) && (n2 in ev.Create) && n1 != n2 ==> ev.Create[n1] != ev.Create[n2]) && (forall n1, n2 string :: (n1 in ev.Update) && (n2 in ev.Update) && n1 != n2 ==> ev.Update[n1] != ev.Update[n2]) && (forall n1, n2 string :: (n1 in ev.Create) && (n2 in ev.Update) ==> ev.Create[n1] != ev.Update[n2]) && (forall n1, n2 string :: (n1 in ev.Create) && lv(s, n2) ==> ref(ev.Create[n1]) != lvVal(s, n2)) && (forall n1, n2 string :: (n1 in ev.Update) && lv(s, n2) ==> ref(ev.Update[n1]) != lvVal(s, n2))
 
 func (s *Supervisor) handleEvent(event *ObjectEntityWatcherEvent)
-  flag frame=unchecked
+  modifies allof("ghost:.smHas"), allof("ghost:.smTyp"), allof("ghost:.smVal"), allof("ghost:github.com/megaease/easegress/pkg/supervisor.gLifePrev"), allof("ghost:github.com/megaease/easegress/pkg/supervisor.gLifeSpec"), allof("ghost:github.com/megaease/easegress/pkg/supervisor.inhPrev"), allof("supervisor.Supervisor.firstHandle"), allof("ghost:github.com/megaease/easegress/pkg/supervisor.closes"), allof("ghost:github.com/megaease/easegress/pkg/supervisor.inherits"), allof("ghost:github.com/megaease/easegress/pkg/supervisor.inits"), allof("supervisor.ObjectEntity.generation")
   requires s != nil && event != nil
   requires regOK(s) && eventOK(s, event)
   ensures registry-invariant-kept: forall n string :: lv(s, n) ==> lvTyp(s, n) == typeTag("*ObjectEntity") && lvVal(s, n) != 0
